@@ -79,6 +79,8 @@ Record st : Type := mkSt {
   s_ndset : list (name * N);             (* name_to_defset (leaf ids) *)
   s_pos : list (rng * symid);            (* newest first *)
   s_refs : list (symid * rng);           (* newest first *)
+  s_uses : list (rng * option rng);      (* GHOST (not in the Rust state): for every add_reference, newest first,
+                                            the reference range and the define_loc of the symbol at that moment *)
   s_diags : list (rng * dkind);          (* newest first *)
   s_scopes : list scope;                 (* innermost first *)
   s_anon : N;
@@ -86,7 +88,7 @@ Record st : Type := mkSt {
 }.
 
 Definition st0 : st :=
-  mkSt [0] [0] [] [] [] [] [] [] [] [] [] [] [mkScope KRoot []] 0 false.
+  mkSt [0] [0] [] [] [] [] [] [] [] [] [] [] [] [mkScope KRoot []] 0 false.
 
 (** ---------------------------------------------------------------------------------------------
     the Option-returning, state-passing style of `fn index(&self, ctx: &mut IndexCtx) -> Option<T>` *)
@@ -105,7 +107,7 @@ Definition get {A} (f : st -> A) : M A := fun s => (Some (f s), s).
 Definition upd (f : st -> st) : M unit := fun s => (Some tt, f s).
 Definition bad {A} : M A :=
   fun s => (None, mkSt (s_trace s) (s_indexed s) (s_recs s) (s_mcs s) (s_leaves s) (s_nclass s) (s_ndef s)
-                       (s_nmc s) (s_ndset s) (s_pos s) (s_refs s) (s_diags s) (s_scopes s) (s_anon s) true).
+                       (s_nmc s) (s_ndset s) (s_pos s) (s_refs s) (s_uses s) (s_diags s) (s_scopes s) (s_anon s) true).
 
 Declare Scope ix_scope.
 Delimit Scope ix_scope with ix.
@@ -146,38 +148,41 @@ Definition lenN {A} (l : list A) : N := N.of_nat (length l).
 (** ---------------------------------------------------------------------------------------------
     state updates (one setter per field group; every other field is copied) *)
 Definition set_files (tr ix : list N) (s : st) : st :=
-  mkSt tr ix (s_recs s) (s_mcs s) (s_leaves s) (s_nclass s) (s_ndef s) (s_nmc s) (s_ndset s) (s_pos s) (s_refs s)
+  mkSt tr ix (s_recs s) (s_mcs s) (s_leaves s) (s_nclass s) (s_ndef s) (s_nmc s) (s_ndset s) (s_pos s) (s_refs s) (s_uses s)
        (s_diags s) (s_scopes s) (s_anon s) (s_bad s).
 Definition set_recs (r : list recd) (s : st) : st :=
-  mkSt (s_trace s) (s_indexed s) r (s_mcs s) (s_leaves s) (s_nclass s) (s_ndef s) (s_nmc s) (s_ndset s) (s_pos s) (s_refs s)
+  mkSt (s_trace s) (s_indexed s) r (s_mcs s) (s_leaves s) (s_nclass s) (s_ndef s) (s_nmc s) (s_ndset s) (s_pos s) (s_refs s) (s_uses s)
        (s_diags s) (s_scopes s) (s_anon s) (s_bad s).
 Definition set_mcs (m : list mcd) (s : st) : st :=
-  mkSt (s_trace s) (s_indexed s) (s_recs s) m (s_leaves s) (s_nclass s) (s_ndef s) (s_nmc s) (s_ndset s) (s_pos s) (s_refs s)
+  mkSt (s_trace s) (s_indexed s) (s_recs s) m (s_leaves s) (s_nclass s) (s_ndef s) (s_nmc s) (s_ndset s) (s_pos s) (s_refs s) (s_uses s)
        (s_diags s) (s_scopes s) (s_anon s) (s_bad s).
 Definition set_leaves (l : list leaf) (s : st) : st :=
-  mkSt (s_trace s) (s_indexed s) (s_recs s) (s_mcs s) l (s_nclass s) (s_ndef s) (s_nmc s) (s_ndset s) (s_pos s) (s_refs s)
+  mkSt (s_trace s) (s_indexed s) (s_recs s) (s_mcs s) l (s_nclass s) (s_ndef s) (s_nmc s) (s_ndset s) (s_pos s) (s_refs s) (s_uses s)
        (s_diags s) (s_scopes s) (s_anon s) (s_bad s).
 Definition set_names (c d m : list (name * N)) (s : st) : st :=
-  mkSt (s_trace s) (s_indexed s) (s_recs s) (s_mcs s) (s_leaves s) c d m (s_ndset s) (s_pos s) (s_refs s)
+  mkSt (s_trace s) (s_indexed s) (s_recs s) (s_mcs s) (s_leaves s) c d m (s_ndset s) (s_pos s) (s_refs s) (s_uses s)
        (s_diags s) (s_scopes s) (s_anon s) (s_bad s).
 Definition set_ndset (d : list (name * N)) (s : st) : st :=
   mkSt (s_trace s) (s_indexed s) (s_recs s) (s_mcs s) (s_leaves s) (s_nclass s) (s_ndef s) (s_nmc s) d (s_pos s)
-       (s_refs s) (s_diags s) (s_scopes s) (s_anon s) (s_bad s).
+       (s_refs s) (s_uses s) (s_diags s) (s_scopes s) (s_anon s) (s_bad s).
 Definition set_pos (p : list (rng * symid)) (s : st) : st :=
-  mkSt (s_trace s) (s_indexed s) (s_recs s) (s_mcs s) (s_leaves s) (s_nclass s) (s_ndef s) (s_nmc s) (s_ndset s) p (s_refs s)
+  mkSt (s_trace s) (s_indexed s) (s_recs s) (s_mcs s) (s_leaves s) (s_nclass s) (s_ndef s) (s_nmc s) (s_ndset s) p (s_refs s) (s_uses s)
        (s_diags s) (s_scopes s) (s_anon s) (s_bad s).
 Definition set_refs (r : list (symid * rng)) (s : st) : st :=
-  mkSt (s_trace s) (s_indexed s) (s_recs s) (s_mcs s) (s_leaves s) (s_nclass s) (s_ndef s) (s_nmc s) (s_ndset s) (s_pos s) r
+  mkSt (s_trace s) (s_indexed s) (s_recs s) (s_mcs s) (s_leaves s) (s_nclass s) (s_ndef s) (s_nmc s) (s_ndset s) (s_pos s) r (s_uses s)
        (s_diags s) (s_scopes s) (s_anon s) (s_bad s).
+Definition set_uses (u : list (rng * option rng)) (s : st) : st :=
+  mkSt (s_trace s) (s_indexed s) (s_recs s) (s_mcs s) (s_leaves s) (s_nclass s) (s_ndef s) (s_nmc s) (s_ndset s) (s_pos s)
+       (s_refs s) u (s_diags s) (s_scopes s) (s_anon s) (s_bad s).
 Definition set_diags (d : list (rng * dkind)) (s : st) : st :=
   mkSt (s_trace s) (s_indexed s) (s_recs s) (s_mcs s) (s_leaves s) (s_nclass s) (s_ndef s) (s_nmc s) (s_ndset s) (s_pos s)
-       (s_refs s) d (s_scopes s) (s_anon s) (s_bad s).
+       (s_refs s) (s_uses s) d (s_scopes s) (s_anon s) (s_bad s).
 Definition set_scopes (sc : list scope) (s : st) : st :=
   mkSt (s_trace s) (s_indexed s) (s_recs s) (s_mcs s) (s_leaves s) (s_nclass s) (s_ndef s) (s_nmc s) (s_ndset s) (s_pos s)
-       (s_refs s) (s_diags s) sc (s_anon s) (s_bad s).
+       (s_refs s) (s_uses s) (s_diags s) sc (s_anon s) (s_bad s).
 Definition set_anon (a : N) (s : st) : st :=
   mkSt (s_trace s) (s_indexed s) (s_recs s) (s_mcs s) (s_leaves s) (s_nclass s) (s_ndef s) (s_nmc s) (s_ndset s) (s_pos s)
-       (s_refs s) (s_diags s) (s_scopes s) a (s_bad s).
+       (s_refs s) (s_uses s) (s_diags s) (s_scopes s) a (s_bad s).
 
 (** ---------------------------------------------------------------------------------------------
     context.rs *)
@@ -228,8 +233,14 @@ Definition add_multiclass (nm : name) (loc : rng) : M N :=
     let s1 := set_mcs (s_mcs s ++ [mkMc nm [] [] loc]) s in
     let s2 := set_names (s_nclass s1) (s_ndef s1) ((nm, id) :: s_nmc s1) s1 in
     (Some id, add_pos loc (SyMc id) s2).
+Definition define_loc (s : st) (id : symid) : option rng :=
+  match id with
+  | SyRecord i => option_map rc_loc (nthN (s_recs s) i)
+  | SyMc i => option_map mc_loc (nthN (s_mcs s) i)
+  | SyLeaf i => option_map lf_loc (nthN (s_leaves s) i)
+  end.
 Definition add_reference (id : symid) (loc : rng) : M unit :=
-  upd (fun s => add_pos loc id (set_refs ((id, loc) :: s_refs s) s)).
+  upd (fun s => add_pos loc id (set_refs ((id, loc) :: s_refs s) (set_uses ((loc, define_loc s id) :: s_uses s) s))).
 
 Definition record_mut (id : N) (f : recd -> recd) : M unit :=
   fun s => match nthN (s_recs s) id with
@@ -412,12 +423,6 @@ Fixpoint find_symbol_at_from (best : option (rng * symid)) (log : list (rng * sy
   end.
 Definition find_symbol_at (s : st) (f p : N) : option symid :=
   option_map snd (find_symbol_at_from None (s_pos s) f p).
-Definition define_loc (s : st) (id : symid) : option rng :=
-  match id with
-  | SyRecord i => option_map rc_loc (nthN (s_recs s) i)
-  | SyMc i => option_map mc_loc (nthN (s_mcs s) i)
-  | SyLeaf i => option_map lf_loc (nthN (s_leaves s) i)
-  end.
 Definition goto_definition (s : st) (f p : N) : option rng :=
   match find_symbol_at s f p with Some id => define_loc s id | None => None end.
 Definition reference_locs (s : st) (id : symid) : list rng :=
